@@ -388,6 +388,125 @@ fn in_process(ctx: &Ctx) {
     }
 }
 
+
+/// A byte source made of a fixed head (a small file built by the specification) followed by `tail` generated bytes
+/// (no backing buffer), counting what was consumed.
+struct HeadTailReader {
+    head: Vec<u8>,
+    tail: u64,
+    pos: u64,
+    /// 0 = zero bytes, 1 = the generator pattern, 2 = the head repeated (looks like further records)
+    tail_kind: u8,
+}
+
+impl Read for HeadTailReader {
+    fn read(&mut self, buf: &mut [u8]) -> std::io::Result<usize> {
+        let total = self.head.len() as u64 + self.tail;
+        let n = (buf.len() as u64).min(total - self.pos) as usize;
+        for (i, b) in buf[..n].iter_mut().enumerate() {
+            let p = self.pos + i as u64;
+            *b = if p < self.head.len() as u64 {
+                self.head[p as usize]
+            } else {
+                let q = p - self.head.len() as u64;
+                match self.tail_kind {
+                    0 => 0,
+                    1 => GenReader::byte_at(q),
+                    _ => self.head[(q % self.head.len() as u64) as usize],
+                }
+            };
+        }
+        self.pos += n as u64;
+        Ok(n)
+    }
+}
+
+struct CountSink(u64);
+impl Write for CountSink {
+    fn write(&mut self, d: &[u8]) -> std::io::Result<usize> {
+        self.0 += d.len() as u64;
+        Ok(d.len())
+    }
+    fn flush(&mut self) -> std::io::Result<()> {
+        Ok(())
+    }
+}
+
+/// "Input length" also means the length of what FOLLOWS a file or stands in for one: a complete authentic file
+/// followed by a long tail, a file whose last record is not marked final followed by a long tail, and a stream
+/// that is not a file at all. Peak memory of the decryptor must not depend on the length of that tail.
+fn hostile_lengths(ctx: &Ctx) {
+    let mut rng = Rng::fork(ctx.seed, "C11-tail");
+    let (s, r) = (rng.arr32(), rng.arr32());
+    let (s_pub, r_pub) = (refspec::pubkey_of(&s), refspec::pubkey_of(&r));
+    let pt = rng.bytes(3 * 65536 + 11);
+    let chunking = refspec::natural_chunking(pt.len(), 65536);
+    let kf = refspec::encode_key_file(&s, &s_pub, &r_pub, &rng.arr32(), &rng.arr32(), &pt, &chunking).unwrap();
+    let pf = refspec::encode_pass_file(b"tail-pw", &rng.arr32(), &pt, &chunking);
+    // the same files cut before their final record: the stream goes on although no final record has been seen
+    let kf_open = kf[..132 + 3 * 65568].to_vec();
+    let pf_open = pf[..36 + 3 * 65568].to_vec();
+    let mut bounds: std::collections::HashMap<String, allocmon::Reading> = std::collections::HashMap::new();
+    let tails: Vec<u64> = ctx.tier.pick(vec![0u64, 1, 65_536, 1 << 20, 24 << 20], vec![0u64, 1, 15, 65_536, 1 << 20, 64 << 20, 512 << 20]);
+    for (mode, what, head) in [
+        (Mode::Key, "complete key-mode file followed by a tail", &kf),
+        (Mode::Pass, "complete password file followed by a tail", &pf),
+        (Mode::Key, "key-mode file without its final record followed by a tail", &kf_open),
+        (Mode::Pass, "password file without its final record followed by a tail", &pf_open),
+        (Mode::Key, "magic only followed by a tail", &kf[..4].to_vec()),
+        (Mode::Pass, "magic only followed by a tail", &pf[..4].to_vec()),
+    ] {
+        for tail_kind in [0u8, 1, 2] {
+            // the bound is the mode's constant: the reading for the complete authentic file with nothing after it
+            // (first input of each mode, tail 0) - a rejected stream may need less, never more
+            let mut base: Option<allocmon::Reading> = if what.starts_with("complete") { None } else { bounds.get(&format!("{:?}", mode)).copied() };
+            for &tail in &tails {
+                if tail_kind != 1 && tail > (1 << 20) && ctx.tier == Tier::Quick {
+                    continue;
+                }
+                let head2 = head.clone();
+                let (r2, r_pub2) = (r, r_pub);
+                let h = std::thread::spawn(move || {
+                    let mut src = HeadTailReader { head: head2, tail, pos: 0, tail_kind };
+                    let mut sink = CountSink(0);
+                    allocmon::begin();
+                    let res: Result<(), String> = match mode {
+                        Mode::Key => key_decrypt(&mut src, &mut sink, &sk(&r2), &pk(&r_pub2), AsymFileFormat::V1).map(|_| ()).map_err(|e| e.to_string()),
+                        _ => pass_decrypt(&mut src, &mut sink, b"tail-pw", PassFileFormat::V1).map_err(|e| e.to_string()),
+                    };
+                    let m = allocmon::end();
+                    (m, res, src.pos, sink.0)
+                });
+                let (m, res, consumed, released) = match h.join() {
+                    Ok(x) => x,
+                    Err(_) => {
+                        ctx.violation("C11:hostile-length:decryptor-panicked", json!({"input": what, "tail_bytes": tail}));
+                        continue;
+                    }
+                };
+                ctx.eval();
+                if base.is_none() {
+                    base = Some(m);
+                    bounds.insert(format!("{:?}", mode), m);
+                }
+                let case = || json!({"input": what, "tail_bytes": tail, "tail_content": (["zeros", "pattern", "the head repeated"][tail_kind as usize]), "result": format!("{:?}", res), "input_consumed": consumed, "plaintext_released": released,
+                    "peak_live": m.peak_live, "largest_block": m.largest_block, "allocations": m.allocations, "bound_peak_live_(complete_file_nothing_after_it)": base.as_ref().map(|b| b.peak_live)});
+                let b = base.as_ref().unwrap();
+                let slack = CHUNK as isize + 4096;
+                if m.peak_live > b.peak_live + slack || m.largest_block > b.largest_block + slack as usize {
+                    ctx.violation(&format!("C11:{:?}:decrypt-memory-grows-with-the-length-of-what-follows-the-file", mode), case());
+                    continue;
+                }
+                ctx.seen("hostile lengths: decryptor's peak memory independent of the tail length");
+                ctx.distinct(&format!("tail|{}|{}|{}", what, tail_kind, tail));
+                if tail >= (1 << 20) {
+                    ctx.sample("stream with a long tail", 2, || case());
+                }
+            }
+        }
+    }
+}
+
 fn cli_rss(ctx: &Ctx) {
     let mut rng = Rng::fork(ctx.seed, "C11-cli");
     let alice = Ident::new("alice", "apw", &mut rng);
@@ -609,15 +728,17 @@ pub fn run(ctx: &Ctx) {
         "each execution streams n chunks from a generator (no backing buffer) through the real encryptor in one thread into a fixed ring buffer and through the real decryptor in \
          another; per-thread allocator counters give peak live bytes and largest block of each side; readings for n in {16, 256, 2048/4096, 65600} must stay within one chunk of the reading \
          for n = 3; the lag monitor records, at the first write of output chunk i, how far the input had been consumed (must be <= 2 chunks + header beyond chunk i); same at chunk size 1 \
-         up to 10^6 chunks; the real binary's ru_maxrss (wait4) for 1 MiB vs 256 MiB / 1 GiB inputs must be flat. distinct_nontrivial counts distinct (mode, size, read cap) streams and CLI lanes",
+         up to 10^6 chunks; the real binary's ru_maxrss (wait4) for 1 MiB vs 256 MiB / 1 GiB inputs must be flat; decrypting a complete file, a file lacking its final record, or a bare magic, each followed by a generated tail of 0 B .. 24 MiB (thorough 512 MiB) of zeros / pattern / repeated records, must peak at the same memory whatever the tail length. distinct_nontrivial counts distinct (mode, size, read cap) streams and CLI lanes",
     );
     ctx.assume("sizes above ~4 GiB are not driven");
     ctx.assume("harness allocations on the measured threads are constant-size (ring buffer pre-allocated, generator and sinks allocation-free)");
     in_process(ctx);
+    hostile_lengths(ctx);
     cli_rss(ctx);
     cli_stalled_stdout(ctx);
     ctx.require("cli: input offset while stdout is stalled stays within two chunks of the output", 3);
     ctx.require("streams within memory and lag bounds", 8);
+    ctx.require("hostile lengths: decryptor's peak memory independent of the tail length", 40);
     ctx.require("stream read in thousands of distinct sizes", 2);
     ctx.require("cli ", 3);
     let _ = Tier::Quick;
